@@ -65,7 +65,9 @@ def expected_step(machine, name):
         return False, WrongSourceStateError, None, [], []
     a_src, a_dst = ancestors(cur), ancestors(t.destination)
     leave = [s.name for s in a_src if s not in a_dst]
-    enter = [s.name for s in a_dst if s not in a_src]
+    # the destination itself is always entered (its enter handlers run, also when it is an ancestor of the source and
+    # stayed active); every other state is entered exactly when it was not active before
+    enter = [s.name for s in a_dst if s not in a_src or s is t.destination]
     if cur is t.destination:
         leave, enter = [cur.name], [cur.name]     # external self-transition: exit and re-enter the state itself
     return True, None, t.destination, leave, enter
@@ -212,7 +214,9 @@ class GenMachine(StateMachine):
         self._transitions = [Transition(n, [self.states[s] for s in srcs], self.states[d]) for n, srcs, d in transitions]
 
 
-def gen_machines(rnd, count, max_states=6, max_depth=3):
+def gen_machines(rnd, count, max_states=6, max_depth=3, composite=False):
+    """composite=True: transitions may start and end at states that have sub-states (and the initial state may be
+    one), so transitions between a state and its own ancestors / descendants occur."""
     for _ in range(count):
         n = rnd.randint(2, max_states)
         parents = [None]
@@ -223,6 +227,8 @@ def gen_machines(rnd, count, max_states=6, max_depth=3):
             parents.append(p)
             depth.append(1 if p is None else depth[p] + 1)
         leaves = [i for i in range(n) if i not in parents]
+        if composite:
+            leaves = list(range(n))
         nt = rnd.randint(1, 8)
         trans = []
         for k in range(nt):
@@ -248,6 +254,16 @@ def bnd_generated(tier, seed):
             check_step(rec, n, fails, {"parents": parents, "transitions": trans, "initial": initial, "step": step})
             n_eval += 1
         distinct.add(shape)
+    # the same with composite states as sources / destinations / initial state
+    for parents, trans, initial in gen_machines(rnd, count, composite=True):
+        m = GenMachine(parents, trans, initial)
+        rec = Recorder(m)
+        names = [t[0] for t in trans] + ["nope"]
+        for step in range(6):
+            n = rnd.choice(names)
+            check_step(rec, n, fails, {"parents": parents, "transitions": trans, "initial": initial, "step": step, "composite_endpoints": True})
+            n_eval += 1
+        distinct.add((tuple(parents), len(trans), "composite"))
     # re-entrant handlers: an enter handler requests a further transition (flat and hierarchical destinations)
     nested_cases = 0
     for parents, trans, initial in gen_machines(rnd, count // 3, max_states=5):
@@ -285,7 +301,7 @@ def bnd_generated(tier, seed):
     # scripted re-entrant chains (also returning to the state that is still being entered), compared event by event with
     # a simulation of the reference semantics; the scripted handler is registered BEFORE the recording handlers
     chains = 0
-    for parents, trans, initial in gen_machines(rnd, count // 2, max_states=5):
+    for parents, trans, initial in list(gen_machines(rnd, count // 2, max_states=5)) + list(gen_machines(rnd, count // 2, max_states=5, composite=True)):
         m = GenMachine(parents, trans, initial)
         script = {}
         for s_ in m.states:
@@ -319,7 +335,7 @@ def bnd_generated(tier, seed):
                 raise KeyError(name)
             a_src, a_dst = ancestors(cur), ancestors(t.destination)
             lv = [x for x in a_src if x not in a_dst] if cur is not t.destination else [cur]
-            en = [x for x in reversed(a_dst) if x not in a_src] if cur is not t.destination else [cur]
+            en = [x for x in reversed(a_dst) if x not in a_src or x is t.destination] if cur is not t.destination else [cur]
             for x in lv:
                 want.append(("leave", x.name))
             sim_cur[0] = t.destination
